@@ -248,6 +248,15 @@ def check(case) -> list[Fail]:
         if r is None:
             raise InvalidCase("program does not build")
         h = r.hugr
+        # every call also gets a state-order edge to the Output of its region (order links leaving nodes that have a
+        # static port besides their value ports)
+        import hugr.ops as hops
+
+        for n in list(h):
+            if isinstance(h[n].op, hops.Call | hops.LoadConst | hops.LoadFunc):
+                sib = h.children(h[n].parent)
+                if sib and isinstance(h[sib[1]].op, hops.Output) if len(sib) > 1 else False:
+                    h.add_order_link(n, sib[1])
     else:
         h = build_edited(case)
     f1, p1 = check_one(h, case["cfg"])
